@@ -101,7 +101,10 @@ Definition audit_terms (fx : list effect) : list term :=
    dropped and the file on disk is opened again with the same key *)
 Inductive hstep :=
 | HCall (ev : env) (cl : caller) (o : op N) (r : N)
-| HReopen.
+| HReopen
+| HBackup.    (* a round of the server's periodic backup task: the file on disk, as it is, is
+                 copied to the object store - by a process that holds no more than the kv does;
+                 the copy is one more place where an attacker finds the file *)
 
 (* the call attempted a save that the file system refused (ev.save_ok = false) *)
 Definition save_failed (fx : list effect) : bool :=
@@ -132,6 +135,9 @@ Fixpoint run_terms (kek : N) (c : cstate) (s : dbstate N) (f : term) (h : list h
           (files, audits, u + uses)
       | (None, u) => ([], [], u)
       end
+  | HBackup :: h' =>
+      let '(files, audits, uses) := run_terms kek c s f h' in
+      (f :: files, audits, uses)           (* no key use: copying bytes needs no key *)
   end.
 
 (* the file a freshly created database writes first *)
